@@ -150,6 +150,21 @@ class Resolver:
                 env[k] = v
         if isinstance(node, ast.Lambda):
             return env
+        # leading guard clauses `if not isinstance(p, T): return/raise` narrow an untyped (object / Any) parameter to T
+        stored = {x.id for x in walk_no_nested(node) if isinstance(x, ast.Name) and isinstance(x.ctx, (ast.Store, ast.Del))}
+        for s in node.body:
+            if isinstance(s, ast.Expr) and isinstance(s.value, ast.Constant):
+                continue
+            t_ = s.test if isinstance(s, ast.If) else None
+            if not (isinstance(t_, ast.UnaryOp) and isinstance(t_.op, ast.Not) and isinstance(t_.operand, ast.Call) and isinstance(t_.operand.func, ast.Name)
+                    and t_.operand.func.id == "isinstance" and len(t_.operand.args) == 2 and isinstance(t_.operand.args[0], ast.Name)
+                    and not s.orelse and s.body and isinstance(s.body[-1], (ast.Return, ast.Raise))):
+                break
+            pn = t_.operand.args[0].id
+            if env.get(pn) in (UNK, prim("object")) and pn not in stored:
+                nt = self.anno(fi.module, t_.operand.args[1])
+                if nt != UNK:
+                    env[pn] = nt
         # two passes so that later assignments can use earlier ones
         nodes = sorted((x for x in walk_no_nested(node) if hasattr(x, "lineno") or isinstance(x, ast.comprehension)),
                        key=lambda x: (getattr(x, "lineno", None) or getattr(getattr(x, "target", None), "lineno", 0), getattr(x, "col_offset", 0)))
@@ -378,6 +393,8 @@ class Resolver:
                 return UNK
             if c.is_enum and attr in c.consts:
                 return ("inst", bt[1])
+            if c.is_enum and attr in ("_value2member_map_", "_member_map_", "__members__"):
+                return ("dict", UNK, ("inst", bt[1]))       # the enum machinery's own tables
             mt = self.m.find_method(bt[1], attr)
             if mt is not None:
                 return ("method", bt, attr)
@@ -485,6 +502,8 @@ class Resolver:
                     return prim("str")
                 if name in ("encode", "tobytes", "to_bytes"):
                     return prim("bytes")
+                if name == "hex" and base in ("bytes", "bytearray", "memoryview", "byteslike"):
+                    return prim("str")
                 if name in ("strip", "lstrip", "rstrip", "upper", "lower", "join", "format", "replace", "casefold") and base == "str":
                     return prim("str")
                 if name in ("strip", "lstrip", "rstrip", "upper", "replace") and base in ("bytes", "bytearray"):
